@@ -14,7 +14,8 @@ RULE = ('histories of 1-5 incremental index builds over random compile results (
         'feeds the previous index text back; a 15-line component-wise cover checker on int tuples '
         'judges identity / enterprise / compliance listing, cover, no foreign listing, monotonic '
         'merge and idempotent re-index; every 4th history goes through MibCompiler.buildIndex with '
-        'a real FileWriter; non-trivial = some OID of a module has a sibling sharing a decimal-digit '
+        'a real FileWriter; every 9th case indexes the statuses of a real multi-module compile() of a '
+        'generated set (truth = generator model); non-trivial = some OID of a module has a sibling sharing a decimal-digit '
         'prefix or a shared subtree; distinct = hash(history)')
 ASSUMPTIONS = ['results are MibStatus objects built with the compiler\'s own setOptions()',
                'the index is read back with json.loads']
@@ -27,10 +28,10 @@ def plan(tier, seed):
     if tier == 'quick':
         return {'n': 9000, 'budget_s': 35, 'min_evals': 3000,
                 'floors': {'builds': 8000, 'oids_cover_checked': 100000, 'merge_pairs_checked': 3000,
-                           'via_buildIndex': 500}}
+                           'via_buildIndex': 500, 'real_compile_builds': 300}}
     return {'n': 300000, 'budget_s': 600, 'min_evals': 100000,
             'floors': {'builds': 300000, 'oids_cover_checked': 3000000, 'merge_pairs_checked': 100000,
-                       'via_buildIndex': 15000}}
+                       'via_buildIndex': 15000, 'real_compile_builds': 8000}}
 
 
 def tup(s):
@@ -110,7 +111,59 @@ def check_index(idx_doc, defined, facts, V, replay, stage):
     return n
 
 
+def case_real_compile(idx, rng, tier, res):
+    """index built from the statuses of a real multi-module compile(); truth = generator model"""
+    from pysmi.codegen.jsondoc import JsonCodeGen
+    from checks import c01_oid
+    from vlib import pipeline
+    g = c01_oid.make_set(rng, 'quick')
+    texts = g.texts()
+    names = [m.name for m in g.modules]
+    history = [{'real_compile_of': names}]
+
+    def V(monitor, detail, replay=None):
+        res.violation(monitor, detail, replay={'texts': texts}, via='compile')
+    try:
+        results, written = pipeline.compile_set(texts, names, codegen='json')
+    except Exception as exc:
+        V('compile_raised', repr(exc))
+        return
+    defined, facts = {}, []
+    for m in g.modules:
+        if results.get(m.name) != 'compiled':
+            V('not_compiled', '%s is %s' % (m.name, results.get(m.name)))
+            return
+        oids, identity, compliance, ent = c01_oid.expected_summary(m)
+        defined[m.name] = set(tup(o) for o in oids)
+        if identity:
+            facts.append(('identity', identity, m.name))
+        for c in compliance:
+            facts.append(('compliance', c, m.name))
+    cg = JsonCodeGen()
+    prev = ''
+    for b in range(rng.randint(1, 2)):
+        try:
+            text = cg.genIndex(results, comments=['c'], old_index_data=prev)
+            doc = json.loads(text)
+        except Exception as exc:
+            V('index_build_failed', repr(exc))
+            return
+        res.count('builds')
+        res.count('real_compile_builds')
+        res.count('oids_cover_checked', check_index(doc, defined, facts, V, None, 'real build %d' % b))
+        for m in g.modules:
+            ent = getattr(results[m.name], 'enterprise', None)
+            if ent and m.name not in doc.get('enterprise', {}).get(ent, []):
+                V('enterprise_missing', '%s not listed under enterprise[%s]' % (m.name, ent))
+        prev = text
+    res.sig = harness.stable_hash(['real', g.signature()])
+    res.nontrivial = len(g.modules) > 1
+    res.cell('via:compile')
+
+
 def run_case(idx, rng, tier, res):
+    if idx % 9 == 8:
+        return case_real_compile(idx, rng, tier, res)
     from pysmi.codegen.jsondoc import JsonCodeGen
     names_all = ['M%d-MIB' % i for i in range(8)]
     nbuilds = rng.randint(1, 5)
